@@ -410,7 +410,13 @@ def run(chk, facts, tier, only=None):
         for crate, key_re, name in helpers:
             if name == "infer_rec::go":
                 key_re = "^" + re.escape(scanner_of_infer_rec(cp)["key"]) + "$"
-            t = tree(crate, key_re)
+            try:
+                t = tree(crate, key_re)
+            except AnchorMissing as e_:
+                # keep going: the remaining walkers and check_cycle's own rule still say something specific
+                chk.bad(f"visited:{name}:anchor", f"anchor moved (not necessarily a property violation): {e_}")
+                found += 1
+                continue
             key = t.h["key"]
             m = the_match(t.h, r"TypeInner$", 2)
             vrows = [r for r in arm_rows(m) if any(h[0] == TI + "Var" for h in r["heads"])]
@@ -472,19 +478,19 @@ def run(chk, facts, tier, only=None):
         # vacuity is a property of each definition: the chain followed from one name must be judged against the names met on *that*
         # chain only, so the visited set handed to has_cycle is created inside the loop over the definitions
         t = tree(cp, r"^candid_parser::typing::check_cycle$")
-        hc = [n for n in walk(t.h["body"]) if n.get("k") == "call" and (callee(n) or "").endswith("check_cycle::has_cycle")]
-        if not hc:
-            raise AnchorMissing("check_cycle no longer calls has_cycle")
-        for c in hc:
-            loops = [p for p in t.ancestors(c) if p.get("k") == "match" and p.get("src") == "ForLoopDesugar"]
-            seen = U.strip_to_local(c["args"][0]) if c.get("args") else None
-            lets = [n for n in walk(t.h["body"]) if n.get("k") == "slet" and (n.get("pat") or {}).get("k") == "bind" and n["pat"]["n"] == seen]
-            fresh = bool(loops) and bool(lets) and all(any(p is loops[0] for p in t.ancestors(n)) for n in lets) and \
-                all((callee(unblock(n["init"])) or "").endswith("::new") for n in lets if n.get("init"))
-            chk.expect(fresh, "visited:check_cycle:fresh-per-definition",
-                       "check_cycle: the visited set passed to has_cycle must be a new, empty set for every definition (created inside the loop over "
-                       "env.0); a set shared between definitions makes the verdict for one name depend on the chains followed for earlier names",
-                       where=where(t, c), ok_detail=f"`{seen}` = BTreeSet::new() inside the loop over the definitions")
+        # whatever shape the walk has: every set of names created in check_cycle is created inside the loop over the definitions
+        sets_ = [n for n in walk(t.h["body"]) if n.get("k") == "slet" and n.get("init") is not None
+                 and re.search(r"(BTreeSet|HashSet|BTreeMap|HashMap|Vec)<", str((n.get("pat") or {}).get("ty") or ""))
+                 and (callee(unblock(n["init"])) or "").endswith("::new")]
+        if not sets_:
+            raise AnchorMissing("check_cycle: no visited set is created (the cycle test was rewritten)")
+        outside = [n for n in sets_ if not any(p.get("k") == "match" and p.get("src") == "ForLoopDesugar" for p in t.ancestors(n))]
+        chk.expect(not outside, "visited:check_cycle:fresh-per-definition",
+                   f"check_cycle: the set of visited names `{(outside[0]['pat'] or {}).get('n') if outside else ''}` is created once, outside the loop over "
+                   f"the definitions: the verdict for one name then depends on the chains followed for earlier names (a cycle reached through an "
+                   f"already-followed name is missed, or a shared prefix is reported as a cycle)",
+                   where=where(t, outside[0]) if outside else None,
+                   ok_detail=f"{len(sets_)} visited set(s), each created inside the loop over the definitions")
 
     # ------------------------------------------------------------------------------------------------ R3
     def r3():
